@@ -232,6 +232,17 @@ def run(ctx: Ctx) -> Result:
                                          f'rem U fX|ph|s|4|{h(4)} fY|ph|s|3|{h(3)}', 'ev e2 2 s 4'], 'twice-newer-first')
                 yield Case(five, cache, [f'rem U f0|ph|p|1|{h(1)}', f'rem U f0|ph|p|3|{h(3)} f0|ph|p|2|{h(2)} f0|ph|p|4|{h(4)} f0|ph|p|2|{h(2)}'],
                            'twice-newer-first')
+            # a SYNC merged with a backlog, met by an instance whose own run of the (singleton / plain) pattern has another
+            # identifier: the peer's run named finished and, with an older state, updated in ONE message; then the same stale
+            # update once more on its own; then local events (a finished identifier never comes back, a new run may start)
+            for cache in (4, 8, 1000):
+                for pat in ('s', 'p'):
+                    for fin in ('C', 'H'):
+                        for local_first in (True, False):
+                            ops = (['ev e0 0 s 0'] if local_first else []) + [
+                                f'rem {fin} f0|ph|{pat}|{5 if fin == "C" else 3}|{h(5 if fin == "C" else 3)} U f0|ph|{pat}|2|{h(2)}',
+                                f'rem U f0|ph|{pat}|2|{h(2)}', 'ev e1 1 s 0', 'ev e2 2 s 1', f'rem U f0|ph|{pat}|3|{h(3)}']
+                            yield Case(five, cache, ops, 'merged-backlog')
             n = 1200 if ctx.thorough else 220
             for i in range(n):
                 phens = loopy if i % 4 == 0 else gp.random_phens(ctx.rng)
